@@ -39,6 +39,19 @@ pub trait CurveTag: AffineRepr + 'static {
     const SC: usize;
     /// cofactor of the curve group
     const COFACTOR: u64;
+    /// the other curve point with the same x-coordinate (−P on the Weierstrass curves, (x, −y)
+    /// on the twisted Edwards curve); None for points of order ≤ 2 and the identity
+    fn same_x_other_y(p: &Self) -> Option<Self>;
+}
+
+fn sw_mirror<G: AffineRepr>(p: &G) -> Option<G> {
+    use ark_ec::CurveGroup;
+    let q = (-p.into_group()).into_affine();
+    if p.is_zero() || q == *p {
+        None
+    } else {
+        Some(q)
+    }
 }
 
 impl CurveTag for SecqG {
@@ -47,6 +60,9 @@ impl CurveTag for SecqG {
     const PT: usize = 33;
     const SC: usize = 32;
     const COFACTOR: u64 = 1;
+    fn same_x_other_y(p: &Self) -> Option<Self> {
+        sw_mirror(p)
+    }
 }
 impl CurveTag for ZorroG {
     const CURVE: Curve = Curve::Zorro;
@@ -54,6 +70,9 @@ impl CurveTag for ZorroG {
     const PT: usize = 33;
     const SC: usize = 32;
     const COFACTOR: u64 = 1;
+    fn same_x_other_y(p: &Self) -> Option<Self> {
+        sw_mirror(p)
+    }
 }
 impl CurveTag for EdG {
     const CURVE: Curve = Curve::Ed;
@@ -61,6 +80,17 @@ impl CurveTag for EdG {
     const PT: usize = 32;
     const SC: usize = 32;
     const COFACTOR: u64 = 8;
+    fn same_x_other_y(p: &Self) -> Option<Self> {
+        if p.is_zero() || p.y == -p.y {
+            return None;
+        }
+        let q = EdG::new_unchecked(p.x, -p.y);
+        if q.is_on_curve() {
+            Some(q)
+        } else {
+            None
+        }
+    }
 }
 
 /// `with_curve!(curve, G => expr)` evaluates `expr` with the type alias `G` bound.
